@@ -46,9 +46,11 @@ def scanFrame (a : Arch) (e : Exp) : Frame :=
            trust := .scan, instruction := e.ret - 4 }
 
 /-- what the scanner of `a` sees of a frame: stack pointer valid, no usable frame pointer, the
-    trust that selects the window, the MIPS mode -/
+    window its trust selects (160 words for the context frame, 40 for a frame found by any
+    technique), the MIPS mode -/
 def ScanView (a : Arch) (f : Frame) (sp : Nat) (first : Bool) : Prop :=
-  f.ctx.sp = sp ∧ f.ctx.get a "sp" = some sp ∧ f.trust = (if first then .context else .scan) ∧
+  f.ctx.sp = sp ∧ f.ctx.get a "sp" = some sp ∧
+  scanWindow a f.trust = (if first then scanWindow a .context else scanWindow a .scan) ∧
   effArch a f.ctx = a ∧
   (a = .mips64 ∨ f.ctx.get a "x29" = none ∨ f.ctx.get a "x29" = some 0)
 
@@ -101,7 +103,7 @@ theorem step_scan {env : Env} {a : Arch} {mem : Mem} {f : Frame} {g : Option Fra
   obtain ⟨k, hesp, hk, hmax, hret, hrej, hacc, hok⟩ := linkScan_spec ha hl
   have hscan : scanFrom (instrValid env a) mem 8 U64MAX sp (scanWindow a f.trust) 0 =
       some (k, sp + k * 8, e.ret) := by
-    rw [htrust, window_of_trust]
+    rw [htrust]
     exact scanFrom_first hrej hacc hok (by omega) _ 0 (Nat.zero_le _) (by omega)
   have hnot : ¬ (sp + k * 8 + 8 > U64MAX) := by omega
   unfold step
